@@ -6,5 +6,6 @@ CONSTANTS
   MaxGen = 4
   MaxOps = 16
   Variant = "fixed"
+  StoreFaults = FALSE
 INVARIANTS EmitAtEnd
 CHECK_DEADLOCK FALSE
